@@ -64,6 +64,11 @@ def malformed_quoted():
             outs.append(q + body)
             outs.append(q + body + q)
             outs.append("a." + q + body + q + " | b")
+        # long unclosed forms: an error message that quotes a prefix of the text must cut it at a character boundary
+        for k in list(range(28, 44)) + [62, 63, 64, 126, 127, 254, 255]:
+            for ch in ["é", "😀", "中", "\u0301"]:
+                outs.append(q + "a" * k + ch * 12)
+                outs.append("foo." + q + ch * 3 + "b" * k + ch * 5)
     return outs
 
 
@@ -105,6 +110,13 @@ def gen_eval(ctx):
     for d in big:
         for e in fexprs:
             out.append((e, d))
+    # arithmetic at the edges of the integer ranges: all-integer arrays whose exact sum / mean leaves i64, u64 or 2^53
+    ext = ["u9223372036854775807", "i-9223372036854775808", "u18446744073709551615", "u9223372036854775808", "u1", "i-1", "u9007199254740993",
+           "u4611686018427387904", "i-4611686018427387905", "u0", G.f64_bits(0.5), G.f64_bits(9.223372036854775807e18)]
+    for _ in range(300 if q else 20000):
+        xs = "[ " + " ".join(rng.choice(ext[:10] if rng.random() < 0.7 else ext) for _ in range(rng.randrange(1, 6))) + " ]"
+        out.append((rng.choice(["sum(@)", "avg(@)", "max(@)", "min(@)", "sort(@)", "map(&abs(@), @)", "map(&ceil(@), @)", "map(&floor(@), @)", "sum(@) > `0`",
+                                "to_string(sum(@))", "sort_by(@, &@)", "[?@ < `0`]", "map(&to_number(to_string(@)), @)", "length(to_string(@))"]), xs))
     eg = G.ExprGen(rng, funcs=True)
     for _ in range(2000 if q else 300000):
         out.append((G.spell(rng, eg.expr()), rng.choice(big) if rng.random() < 0.2 else G.rand_doc(rng, 3)))
